@@ -298,17 +298,27 @@ def r_C05_C10(root):
         out.append(Finding("C10", "C10.c", P, "FQN.find_obj", "list / scalar branches", "one of the list-valued / single-valued branches does not return a match"))
     fr = find(load(root, P), "FQN.__call__._find_referenced_obj"); inst += 1
     fif = sem.info(fr); cfgf = fif.cfg; p0 = fr.args.args[0].arg
-    searches = [n for n in cfgf.nodes if n.ast is not None and n.kind in ("stmt", "return", "cond") and any(callee_name(c) == "_find_obj_fqn" and c.args and ast.unparse(c.args[0]) == p0 for c in calls(n.ast))]
-    moves = [n for n in cfgf.nodes if n.kind == "stmt" and isinstance(n.ast, ast.Assign) and any(isinstance(tg, ast.Name) and tg.id == p0 for tg in n.ast.targets)]
-    starts_here = any(cfgf.paths_avoiding(cfgf.entry, s_, lambda n: n in moves) for s_ in searches) and not any(cfgf.paths_avoiding(cfgf.entry, m, lambda n: n in searches) for m in moves)            # the referencing object itself is searched before any step outward
-    only_parent = all(ast.unparse(m.ast.value).replace(" ", "") in (p0 + ".parent",) for m in moves)
-    repeats = any(cfgf.paths_avoiding(m, s_, lambda n: False) for m in moves for s_ in searches)           # after a step outward the search is repeated
-    for c in [c for c in calls(fr) if callee_name(c) == "_find_obj_fqn" and c.args]:
-        a0 = fif.expand(c.args[0], at=c)
-        if not (isinstance(a0, ast.Name) and a0.id == p0):
-            out.append(Finding("C10", "C10.b", P, "FQN._find_referenced_obj", " ".join(ast.unparse(c).split())[:100], "a search is started at %s, which is neither the referencing object nor one of its ancestors reached by climbing: a chain further out wins over the nearest one" % ast.unparse(a0), witness="the same dotted chain exists at top level and in a nearer enclosing package"))
-    if not (searches and moves and starts_here and only_parent and repeats):
-        out.append(Finding("C10", "C10.b", P, "FQN._find_referenced_obj", "search order", "search does not start at the referencing object and continue outward through its ancestors (starts at the object: %s, climbs only .parent: %s, repeats after climbing: %s)" % (bool(starts_here), only_parent, bool(repeats))))
+    scalls = [c for c in calls(fr) if callee_name(c) == "_find_obj_fqn" and c.args]
+    if not scalls: raise AnalysisError("_find_referenced_obj: no search call found")
+    # the cursor: the one variable every search starts at; it is the parameter or a local initialised from it, and only ever moves to its .parent
+    curs = {ast.unparse(c.args[0]) for c in scalls}
+    cur = next(iter(curs)) if len(curs) == 1 and all(isinstance(c.args[0], ast.Name) for c in scalls) else None
+    if cur is None:
+        bad_c = next(c for c in scalls if not isinstance(c.args[0], ast.Name) or ast.unparse(c.args[0]) != p0)
+        out.append(Finding("C10", "C10.b", P, "FQN._find_referenced_obj", " ".join(ast.unparse(bad_c).split())[:100], "a search is started at %s, which is neither the referencing object nor one of its ancestors reached by climbing: a chain further out wins over the nearest one" % ast.unparse(bad_c.args[0]), witness="the same dotted chain exists at top level and in a nearer enclosing package"))
+    else:
+        def _asg(n): return n.kind == "stmt" and isinstance(n.ast, ast.Assign) and any(isinstance(tg, ast.Name) and tg.id == cur for tg in n.ast.targets)
+        searches = [n for n in cfgf.nodes if n.ast is not None and n.kind in ("stmt", "return", "cond") and any(callee_name(c) == "_find_obj_fqn" for c in calls(n.ast))]
+        inits = [n for n in cfgf.nodes if _asg(n) and cur != p0 and ast.unparse(n.ast.value) == p0]
+        moves = [n for n in cfgf.nodes if _asg(n) and n not in inits]
+        rooted = cur == p0 or (bool(inits) and not any(cfgf.paths_avoiding(cfgf.entry, s_, lambda n: n in inits) for s_ in searches))
+        starts_here = rooted and any(cfgf.paths_avoiding(cfgf.entry, s_, lambda n: n in moves) for s_ in searches) and not any(cfgf.paths_avoiding(cfgf.entry, m, lambda n: n in searches) for m in moves)            # the referencing object itself is searched before any step outward
+        only_parent = all(ast.unparse(m.ast.value).replace(" ", "") in (cur + ".parent",) for m in moves)
+        repeats = any(cfgf.paths_avoiding(m, s_, lambda n: False) for m in moves for s_ in searches)           # after a step outward the search is repeated
+        okb_ = bool(searches and moves and starts_here and only_parent and repeats)
+        ob("C10", "C10.b", P, "FQN._find_referenced_obj", "search cursor %s: starts at the referencing object, climbs .parent only, search repeated after each climb" % cur, okb_)
+        if not okb_:
+            out.append(Finding("C10", "C10.b", P, "FQN._find_referenced_obj", "search order", "search does not start at the referencing object and continue outward through its ancestors (starts at the object: %s, climbs only .parent: %s, repeats after climbing: %s)" % (bool(starts_here), only_parent, bool(repeats))))
     ff = find(load(root, P), "FQN.__call__._find_obj_fqn"); inst += 1
     fiq = sem.info(ff)
     rets = [r for r in own_nodes(ff) if isinstance(r, ast.Return) and ast.unparse(r.value) == "p"]
